@@ -81,7 +81,7 @@ func c15CheckDistinct(p []int, n int) string {
 // c15ModelSamples is Fisher-Yates restricted to its first m steps over the
 // oracle keystream: step i draws j from [0, n-i) and swaps positions i and i+j.
 func c15ModelSamples(seed, nonce []byte, pos uint64, n, m int) (items []int, used uint64) {
-	items = iota(n)
+	items = identityPerm(n)
 	for i := 0; i < m; i++ {
 		j, u := modelUintN(seed, nonce, pos+used, uint64(n-i))
 		used += u
@@ -230,7 +230,7 @@ func TestC15_Public(t *testing.T) {
 				if !shuffle {
 					m = g.Int("sampM", 0, n)
 				}
-				l1, l2 := &c15SwapLog{items: iota(n)}, &c15SwapLog{items: iota(n)}
+				l1, l2 := &c15SwapLog{items: identityPerm(n)}, &c15SwapLog{items: identityPerm(n)}
 				var err1, err2 error
 				name := fmt.Sprintf("Samples(%d,%d)", n, m)
 				if shuffle {
